@@ -76,6 +76,11 @@ def make(obj, tmp):
     if kind == 'list-of-tuples':
         orig = [(v, [i]) for i, v in enumerate(data)]
         return lazy_dataset.new(orig).map(_first), False, orig
+    if kind == 'nested-tuple-cache':
+        # tuples all the way down to the mutable example: "immutable" only at first sight
+        return base.map(_nest).cache(), True, orig
+    if kind == 'key-zip-items-cache':
+        return base.key_zip(base).items().map(_first).cache(), False, orig
     if kind == 'key-zip-diskcache':
         return base.key_zip(base).map(_first).diskcache(
             cache_dir=tempfile.mkdtemp(prefix='verif_c09_dc_', dir=tmp)), True, orig
@@ -84,6 +89,10 @@ def make(obj, tmp):
 
 def _pair(ex):
     return (ex, [ex['id']])
+
+
+def _nest(ex):
+    return ((ex, 1), 'label')
 
 
 def _first(t):
@@ -95,6 +104,7 @@ def _first(t):
 OBJECTS = [('dict', 'pickle'), ('dict', 'copy'), ('list', 'pickle'), ('list', 'copy'), ('list', 'wu'),
            ('cache', None), ('cache-of-copy', None), ('diskcache', None), ('eager-cache', None),
            ('zip-cache', None), ('pair-cache', None), ('list-of-tuples', None), ('key-zip-diskcache', None),
+           ('nested-tuple-cache', None), ('key-zip-items-cache', None),
            ('cache+array', None), ('dict+array', 'pickle'), ('list+array', 'wu'), ('diskcache+array', None),
            ('eager-cache+array', None)]
 
@@ -105,8 +115,8 @@ def access(ds, keyed, path, e):
     """Fetch example e through the given path; None if the path does not apply.  For tuple-valued datasets the
     first member of the tuple is what is compared and mutated."""
     v = _access(ds, keyed, path, e)
-    if isinstance(v, tuple):
-        return v[0]
+    while isinstance(v, tuple):
+        v = next(m for m in v if not isinstance(m, (str, int, float, bytes, type(None))))
     return v
 
 
@@ -225,6 +235,73 @@ def check_object(args):
     return st, list(viols.values())
 
 
+def check_disk_faults(args):
+    """Environment deviation: the K-th write of the disk cache fails (disk full), once.  The access that hits the fault may
+    fail; whatever IS handed out, then or later, is isolated from what later accesses return."""
+    k, tier = args
+    import errno
+    import diskcache.core
+    st = collections.Counter()
+    viols = {}
+    tmp = tempfile.mkdtemp(prefix='verif_c09f_', dir='/var/tmp')
+    obj = ('diskcache', None)
+    real_store = diskcache.core.Disk.store
+    calls = {'n': 0, 'armed': True}
+
+    def store(self, *a, **kw):
+        i = calls['n']
+        calls['n'] += 1
+        if calls['armed'] and i == k:
+            calls['armed'] = False
+            raise OSError(errno.ENOSPC, 'No space left on device (injected)')
+        return real_store(self, *a, **kw)
+
+    def bad(key, what, hist):
+        if key not in viols:
+            viols[key] = common.Violation('C09', key, f'{obj} with write {k} failing: {what}',
+                                          {'engine': 'disk-fault', 'k': k, 'history': hist}).to_json()
+    diskcache.core.Disk.store = store
+    try:
+        events = [(p, e, d) for p in ('idx', 'key', 'iter', 'copy') for e in range(N) for d in (1, 2)
+                  if tier == 'thorough' or d == 2]
+        for hist in itertools.product(events, repeat=2):
+            st['states'] += 1
+            calls.update(n=0, armed=True)
+            ds, keyed, orig = make(obj, tmp)
+            want = pristine()
+            ok = True
+            for n, (path, e, md) in enumerate(hist):
+                st['transitions'] += 1
+                try:
+                    got = access(ds, keyed, path, e)
+                except Exception:     # noqa: BLE001   (the faulted access may be refused; nothing was handed out)
+                    continue
+                if not deq(got, want[e]):
+                    bad(f'stored-data-changed/diskcache-write-fault/read-by-{path}',
+                        f'history {list(hist[:n + 1])}: access by {path} of example {e} returned {got}',
+                        [list(h) for h in hist[:n + 1]])
+                    ok = False
+                    break
+                mutate(got, md)
+            if ok:
+                for path in ('idx', 'iter', 'key'):
+                    for e in range(N):
+                        try:
+                            got = access(ds, keyed, path, e)
+                        except Exception:     # noqa: BLE001
+                            continue
+                        if not deq(got, want[e]):
+                            bad(f'stored-data-changed/diskcache-write-fault/read-by-{path}',
+                                f'after history {list(hist)}: access by {path} of example {e} returned {got}',
+                                [list(h) for h in hist])
+            del ds
+    finally:
+        diskcache.core.Disk.store = real_store
+        shutil.rmtree(tmp, ignore_errors=True)
+    st['faulted_runs'] = st['states'] if not calls['armed'] or st['states'] else 0
+    return st, list(viols.values())
+
+
 def run(tier):
     res = common.Result()
     depth = 2 if tier == 'quick' else 3
@@ -236,6 +313,9 @@ def run(tier):
         tasks.append((obj, d, tier))
     total = collections.Counter()
     for st, viols in common.pmap(check_object, tasks):
+        total.update(st)
+        res.violations.extend(common.Violation.from_json(v) for v in viols)
+    for st, viols in common.pmap(check_disk_faults, [(k, tier) for k in range(0, 4 if tier == 'quick' else 8)]):
         total.update(st)
         res.violations.extend(common.Violation.from_json(v) for v in viols)
     # two / three threads fetch the same cold example concurrently and mutate what they got (E2, all schedules of
@@ -274,6 +354,11 @@ def replay(data):
         from vf.checks import _e2
         return _e2.replay('C09', data)
     res = common.Result()
+    if r.get('engine') == 'disk-fault':
+        st, viols = check_disk_faults((r['k'], 'thorough'))
+        res.violations = [common.Violation.from_json(v) for v in viols]
+        res.coverage.update(states=st['states'], transitions=st['transitions'])
+        return res
     tmp = tempfile.mkdtemp(prefix='verif_c09_', dir='/var/tmp')
     try:
         obj = tuple(r['object'])
